@@ -332,6 +332,7 @@ func execFmtCase(c *Sx, env *execEnv) (*Sx, []Violation) {
 			if exposure && f != "dot" {
 				if m := checkExposureSections(f, l1.out, l1.conns, l1.xs); m != "" {
 					rep("C09", "exposure-section-does-not-encode-result", fmt.Sprintf("format %s: %s", f, m))
+					rep("C06", "reported-exposure-entry-is-not-the-computed-one", fmt.Sprintf("format %s: %s", f, m))
 				}
 			}
 			if ref == nil {
@@ -512,7 +513,7 @@ func checkDiffFormat(format, out string, cd diff.ConnectivityDiff) string {
 }
 
 func genFmtCase(r *Rng, id int, tier string) *Sx {
-	cfg := &genCfg{anp: r.P(30), banp: true, pods: true, ingress: r.P(35), icNs: true, icName: r.P(25), twinPct: 25, complementPct: 8, podPortsVary: true, namedOnIPPct: 10, maxNP: 4, maxWl: 5}
+	cfg := &genCfg{anp: r.P(30), banp: true, pods: true, ingress: r.P(35), icNs: true, icName: r.P(25), twinPct: 25, complementPct: 8, dashTwinPct: 10, podPortsVary: true, namedOnIPPct: 10, maxNP: 4, maxWl: 5}
 	exposure := r.P(40)
 	if exposure {
 		cfg.anp, cfg.banp = false, false
